@@ -217,7 +217,7 @@ func (ex *Exec) ghostSort(name string) string {
 		return sBool
 	case "http.status", "http.n":
 		return sInt
-	case "isOpen":
+	case "isOpen", "osOpen":
 		return arrSort(sInt, sBool)
 	case "ctx.bounded":
 		return arrSort(sInt, sBool)
